@@ -46,7 +46,7 @@ inductive Change (s s' : RSys) (i : Nat) (r : RReq) : Prop
 
 theorem stepRunning_change {cfg : Cfg} (ok : SlotsOK cfg) (r : RReq) (hph : r.phase = .running) :
     (stepRunning cfg r).1.peer = r.peer ∧ holds (stepRunning cfg r).1 = true ∧ todoOK (stepRunning cfg r).1 := by
-  rcases r with ⟨peer, script, phase, out, cls, delivered, lock⟩
+  rcases r with ⟨peer, script, phase, out, cls, delivered, lock, released⟩
   simp only at hph
   subst hph
   cases script with
@@ -98,9 +98,9 @@ theorem step_change {cfg : Cfg} (ok : SlotsOK cfg) (s : RSys) (i : Nat) (r : RRe
             have hrest : rest.countP isSlotRelease = 0 := by simp only [ha, if_true] at hcnt; omega
             have hholds : holds r = true := by simp [holds, hph, ha]
             cases a <;> simp [isSlotRelease] at ha
-            · exact .give { r with phase := .cleaning rest } (by simp [applyAct]) rfl hholds
+            · exact .give { r with phase := .cleaning rest, released := r.released + 1 } (by simp [applyAct]) rfl hholds
                 (by simp [holds, hrest]) (by simp [todoOK, hrest]) (by simp [applyAct]) (by simp [applyAct])
-            · exact .give { r with phase := .cleaning rest } (by simp [applyAct]) rfl hholds
+            · exact .give { r with phase := .cleaning rest, released := r.released + 1 } (by simp [applyAct]) rfl hholds
                 (by simp [holds, hrest]) (by simp [todoOK, hrest]) (by simp [applyAct]) (by simp [applyAct])
           · have hrest : rest.countP isSlotRelease ≤ 1 := by simp only [ha] at hcnt; simpa using hcnt
             have hh : holds { (applyAct s i r a).2 with phase := .cleaning rest } = holds r := by
